@@ -29,6 +29,9 @@ each argument, auto-escape on and off):
       elsif conditions and blocks after a true branch, for/else bodies not entered,
       later `when` blocks) deleting a variable that must not be reached changes
       nothing under any policy;
+  (7) history: the same template fetched again from a caching loader with other
+      per-call globals and rendered without arguments gives what the same call gives
+      on fresh objects (raises iff a reached variable is missing NOW);
 every template case is rendered through render() and render_async().
 """
 
@@ -1336,6 +1339,77 @@ def beyond_directed() -> list[tuple[str, dict[str, str], dict[str, Any], bool, s
     return out
 
 
+HIST_TEMPLATES = {
+    "t": "{{ user }}|{{ user.name | default: 'anon' }}|{% if user %}Y{% else %}N{% endif %}|{{ n | plus: 1 }}",
+    "u": "{% for x in items %}{{ x }}{% else %}E{% endfor %}|{{ title | upcase }}",
+    "w": "{% include 'part' %}|{{ user | default: 'd' }}",
+    "part": "[{{ user }}{{ n }}]",
+    "v": "{% assign user = user | default: 'local' %}{{ user }}|{{ n }}",
+}
+
+
+def history_scripts() -> list[tuple[str, list[tuple[dict[str, Any] | None, dict[str, Any] | None]]]]:
+    """(template name, steps); a step is (globals passed to get_template | None,
+    keyword arguments passed to render | None = none)."""
+    U1, U2 = {"user": "u1", "n": 1}, {"user": {"name": "N2"}, "n": 2}
+    scripts: list[tuple[str, list[tuple[dict[str, Any] | None, dict[str, Any] | None]]]] = []
+    seqs = [
+        [({}, None), (U1, None)], [(U1, None), ({}, None)], [(U1, None), (U2, None)], [(None, None), (U1, None)],
+        [(U1, None), (None, None)], [({"n": 1}, None), ({"user": "u"}, None)], [({"user": "u"}, None), ({"n": 5}, None)],
+        [({}, None), (U1, None), ({}, None)], [(U1, None), ({}, None), (U2, None)],
+        [({}, {"user": "arg"}), (U1, None)], [(U1, None), ({}, {"user": "arg", "n": 9})], [({}, {"user": "arg", "n": 9}), ({}, None)],
+        [(U1, {"user": "arg"}), (U2, None), (U2, {"n": 7})], [(U1, None), (U1, None)], [({}, None), ({}, None), (U2, None)],
+    ]
+    for name in ("t", "w", "v"):
+        for seq in seqs:
+            scripts.append((name, seq))
+    I1, I2 = {"items": [1, 2], "title": "a"}, {"items": [], "title": "b"}
+    for seq in ([({}, None), (I1, None)], [(I1, None), ({}, None)], [(I1, None), (I2, None)], [({"items": [3]}, None), ({"title": "t"}, None)],
+                [({}, {"title": "arg"}), (I1, None)], [(I2, None), ({}, None), (I1, None)]):
+        scripts.append(("u", seq))
+    return scripts
+
+
+def run_history(kind: str, pol: str, asynchronous: bool, name: str,
+                steps: list[tuple[dict[str, Any] | None, dict[str, Any] | None]], root: Any) -> list[tuple[tuple[str, str], tuple[str, str]]]:
+    """Per step: (outcome on ONE environment and loader kept across the steps,
+    outcome of the same call on fresh objects)."""
+    import asyncio
+    from liquid2 import CachingDictLoader, CachingFileSystemLoader, DictLoader, Environment
+
+    def mk() -> Any:
+        if kind == "cdict":
+            ld: Any = CachingDictLoader(dict(HIST_TEMPLATES))
+        elif kind == "cdict-noreload":
+            ld = CachingDictLoader(dict(HIST_TEMPLATES), auto_reload=False)
+        elif kind == "cfs":
+            ld = CachingFileSystemLoader(root)
+        elif kind == "cfs-noreload":
+            ld = CachingFileSystemLoader(root, auto_reload=False)
+        else:
+            ld = DictLoader(dict(HIST_TEMPLATES))
+        return Environment(undefined=_classes()[pol], loader=ld)
+
+    if not _LOOP:
+        _LOOP.append(asyncio.new_event_loop())
+
+    def one(env: Any, g: dict[str, Any] | None, args: dict[str, Any] | None) -> tuple[str, str]:
+        del _TOUCHED[:]
+        try:
+            if asynchronous:
+                t = _LOOP[0].run_until_complete(env.get_template_async(name, globals=g))
+                o = ("ok", _LOOP[0].run_until_complete(t.render_async(**(args or {}))))
+            else:
+                t = env.get_template(name, globals=g)
+                o = ("ok", t.render(**(args or {})))
+        except Exception as e:  # noqa: BLE001
+            o = outcome_of_exception(e)
+        return _probe_outcome(o) if pol == "P" else o
+
+    kept = mk()
+    return [(one(kept, g, args), one(mk(), g, args)) for g, args in steps]
+
+
 # ---------------------------------------------------------------- main
 
 _orig_coqc_cases = C._coqc_cases
@@ -1366,11 +1440,11 @@ def main(chk: C.Check, build: C.Build) -> None:
     # 1. programs of the modelled fragment x data x deleted subsets
     cases: list[tuple[list[tuple], dict[str, Any], tuple, bool]] = []
     site = site_programs()
-    site = [x for x in site if r.random() < (0.5 if thorough else 0.02)]
+    site = [x for x in site if r.random() < (0.5 if thorough else 0.015)]
     for prog, data in site:
         for sub, d in deletions(prog, data, r, 2, 2):
             cases.append((prog, d, sub, False))
-    nprog = 450 if thorough else 60
+    nprog = 450 if thorough else 45
     for i in range(nprog):
         prog = gen_block(r, [], depth=3 if thorough else 2, n=r.choice([1, 2, 2, 3]))
         dels = deletions(prog, BASE, r, 4, 12 if thorough else 3)
@@ -1489,7 +1563,7 @@ def main(chk: C.Check, build: C.Build) -> None:
         # Python == between an undefined and nil / false, in every policy: never sampled away
         a = k["replay"]["args"]
         return k["replay"]["kernel"] in ("_eq", "_contains") and "Undefined(" in a and ("None" in a or "False" in a)
-    kitems += [k for k in kall if must(k) or r.random() < (0.3 if thorough else 0.05)]
+    kitems += [k for k in kall if must(k) or r.random() < (0.3 if thorough else 0.04)]
 
     # 3. oracle beyond the model
     nbeyond = 0
@@ -1527,6 +1601,38 @@ def main(chk: C.Check, build: C.Build) -> None:
         if both[0] != both[1]:
             chk.finding("sync-async-differ", f"render and render_async differ: {both[0]!r} vs {both[1]!r}: {src!r}",
                         {"source": src, "partials": parts, "data": data, "sync": both[0], "async": both[1]})
+    # directed histories: the same template fetched again from a caching loader with
+    # other per-call globals; each render compared with the same call on fresh objects
+    import os
+    import shutil
+    import tempfile
+    from pathlib import Path
+    hroot = Path(tempfile.mkdtemp(prefix="c16_", dir=os.environ.get("VERIF_SCRATCH", "/var/tmp")))
+    nhist = 0
+    try:
+        for tn, text in HIST_TEMPLATES.items():
+            (hroot / tn).write_text(text)
+        for name, steps in history_scripts():
+            for kind in (("cdict", "cdict-noreload", "cfs", "cfs-noreload", "dict") if thorough else ("cdict", "cfs", "cfs-noreload")):
+                for asy in (False, True):
+                    per_pol = {pol: run_history(kind, pol, asy, name, steps, hroot) for pol in POLS}
+                    for i, (g, args) in enumerate(steps):
+                        nhist += 1
+                        kept = {pol: per_pol[pol][i][0] for pol in POLS}
+                        fresh_o = {pol: per_pol[pol][i][1] for pol in POLS}
+                        rep = {"template": name, "source": HIST_TEMPLATES[name], "loader": kind, "async": asy,
+                               "steps": [{"globals": a, "render_args": b} for a, b in steps], "step": i}
+                        for pol in POLS:
+                            if kept[pol] != fresh_o[pol]:
+                                nm = {"D": "Undefined", "S": "StrictUndefined", "F": "FalsyStrictUndefined", "P": "probe"}[pol]
+                                chk.finding(f"history-changes-result:{nm}",
+                                            f"{kind} loader, {'async' if asy else 'sync'}, {nm}: step {i} of "
+                                            f"{[(a, b) for a, b in steps]!r} on template {name!r} gives {kept[pol]!r}; the same "
+                                            f"get_template(globals=...)/render(...) on fresh objects gives {fresh_o[pol]!r}",
+                                            dict(rep, policy=nm, kept=kept[pol], fresh=fresh_o[pol]))
+                        oracle(chk, f"<history {name} {kind} step {i}> " + HIST_TEMPLATES[name], rep, kept, complete=False)
+    finally:
+        shutil.rmtree(hroot, ignore_errors=True)
     outs = {pol: render_impl(REPR_WITNESS[0], REPR_WITNESS[1], pol) for pol in POLS}
     oracle(chk, REPR_WITNESS[0], REPR_WITNESS[1], outs, complete=False)
 
@@ -1565,6 +1671,7 @@ def main(chk: C.Check, build: C.Build) -> None:
         "lazy_site_programs": len(lazy),
         "directed_programs": len(directed),
         "directed_sources_beyond_model": nbd,
+        "history_steps": nhist,
         "lazy_deletion_comparisons": nlazy,
         "oracle_only_sources": nbeyond,
         "exhaustive": False,
